@@ -53,7 +53,7 @@ CHECKS.update({
             "note": _NOTE_COMMON},
     "C19": {"engine": "collection", "technique": _T,
             "level": ("TLC checks the transcription of collection.py against Python-list semantics and chain well-formedness (repaired variant holds, pinned-commit variant refuted); all exported histories of append/+=/c[i]=x/del c[i]/clear "
-                      "for every index incl. out of range, from every start list of length 0-3, followed by every read, plus corruption scenarios under a watchdog and seeded histories, are replayed; TLC validates every result/exception, "
+                      "for every index incl. out of range and negative (Python positions), from every start list of length 0-3, followed by every read, plus corruption scenarios under a CPU-time watchdog (full-walk reads of a cyclic chain must raise), lists longer than the recursion limit, c += c and seeded histories, are replayed; TLC validates every result/exception, "
                       "list(c), len and the full set of rdf:first/rdf:rest triples (well-formed chain, no orphans) after every event."),
             "note": _NOTE_COMMON + " One known finding (setitem at index == len) is modelled as a named deviation; see known_findings.jsonl."},
 })
@@ -95,9 +95,10 @@ CHECKS.update({
     "C12": {"engine": "documents", "technique": _TD, "note": _ND,
             "level": ("Sequences of 1-3 parse calls (5 + 3 abstract documents x 9 syntaxes) into Graph / Dataset (union on, off) / ConjunctiveGraph with and without pre-existing content (incl. blank nodes whose ids equal document labels); after each call TLC checks that "
                       "no quad disappeared and that the sink equals the old content plus the document with its labels mapped one-to-one onto blank nodes that did not exist before.")},
-    "C14": {"engine": "documents", "technique": _TD, "note": _NOTE_COMMON + " Oracle is an n! bijection search: graphs are limited to 6 blank nodes.",
+    "C14": {"engine": "documents", "technique": _TD, "note": _NOTE_COMMON + " Oracle is an n! bijection search: graphs are limited to 6 blank nodes; ten named graphs of 8-12 blank nodes are judged for relabelled copies only, through the renaming the harness used (the spec checks the witness). One known finding (a cubic graph on 10 blank nodes) is identified by its edge structure.",
             "level": ("TLC checks that Iso is reflexive, relabelling-invariant and edge-sensitive on all 255 graphs with <= 4 edges on 3 blank nodes; those graphs, 4-node graphs and 20 hard families (cycles, 2*C3 vs C6, K2,2, K3,3, prism, two-coloured C6 ...) are compared through isomorphic(), "
-                      "to_isomorphic ==, to_canonical_graph, graph_diff, skolemise/de-skolemise and digest partitions; every answer is validated by TLC against the brute-force definition.")},
+                      "to_isomorphic ==, to_canonical_graph, graph_diff, skolemise/de-skolemise (default and caller-given authorities, into caller-supplied graphs, blank node ids with IRI delimiters), equality histories of one IsomorphicGraph, read-only aggregates as input, and digest partitions; "
+                      "every answer is validated by TLC against the brute-force definition (or, beyond 6 blank nodes, against the renaming witness).")},
 })
 ENGINES += [{"name": "documents", "path": "spec/GraphIso.tla spec/TraceDocs.tla spec/TraceIso.tla spec/MCGraphIso.tla harness/rvf/doc_replay.py harness/rvf/iso_replay.py harness/rvf/shapes.py harness/rvf/docwriters.py harness/rvf/classes.py",
              "serves_properties": ["C03", "C06", "C12", "C14"], "kind_free_text": "graph isomorphism in TLA+ as the oracle for round trips, parses and rdflib.compare"}]
